@@ -132,6 +132,12 @@ def cases(tier, seed):
     groups = G.kinds("groups")
     # depth 1: full configuration grid, all root attribute settings
     for k in base + groups:
+        if k in G.NESTED:
+            # nested groups: every option corner at the coarsest and the default rounding; one root setting
+            yield {"fam": "doc", "kinds": [k], "root": "none", "configs": configs_corners((0, 3))}
+            if tier == "thorough" or k.endswith(".after"):
+                yield {"fam": "doc", "kinds": [k], "root": "opacity", "configs": [(3, False, True), (3, False, False)]}
+            continue
         for r in G.ROOT_ATTRS:
             yield {"fam": "doc", "kinds": [k], "root": r, "configs": configs_full() if (r == "none" or ":" not in k) else configs_corners()}
     # length 2 over the base alphabet: 4 corners at ndigits 3 (+ 0 and 6 on the plain corner)
